@@ -43,7 +43,8 @@ ASSUMPTIONS = ["integer leaves (class E); norm(ord=2) compared through its squar
 BINOPS = {"add": operator.add, "sub": operator.sub, "mul": operator.mul, "floordiv": operator.floordiv,
           "mod": operator.mod, "pow": operator.pow, "lshift": operator.lshift, "rshift": operator.rshift,
           "lt": operator.lt, "le": operator.le, "eq": operator.eq, "ne": operator.ne, "ge": operator.ge, "gt": operator.gt,
-          "and": operator.and_, "or": operator.or_, "xor": operator.xor}
+          "and": operator.and_, "or": operator.or_, "xor": operator.xor,
+          "truediv": operator.truediv}          # float result: oracle only (IEEE division is the same in NumPy and XLA)
 UNOPS = {"neg": operator.neg, "pos": operator.pos, "abs": operator.abs, "invert": operator.invert,
          "conj": lambda v: v.conj(), "real": lambda v: v.real, "imag": lambda v: v.imag}
 
@@ -181,7 +182,7 @@ def num_leaves(t):
 
 def operand_ranges(f):
     """value ranges that keep every operation exact and defined (no division by zero, small shifts / exponents)"""
-    if f in ("floordiv", "mod"):
+    if f in ("floordiv", "mod", "truediv"):
         return dict(lo=-9, hi=9), dict(lo=-5, hi=5, nonzero=True)
     if f == "pow":
         return dict(lo=-4, hi=4), dict(lo=0, hi=3)
@@ -688,6 +689,9 @@ def _corpus():
 def model_request(case):
     if case["op"] == "smap":
         return dict(op="smap", cfg="fixed", args=case["args"], outs=case["outs"], len=case["len"])
+    if case["op"] == "binop" and case["f"] == "truediv":
+        t = case["lhs"].get("tree") or case["rhs"].get("tree")
+        return dict(op="reduce", x=t)                # float division is not modelled: placeholder request
     if case["op"] == "cplx":
         return dict(op="reduce", x=case["a"])        # complex leaves are not modelled: placeholder request
     if case["op"] == "forest":
@@ -726,6 +730,12 @@ def run(ctx):
         try:
             if k in ("cplx", "forest"):
                 ctx.case(c, num_leaves(c["a"] if k == "cplx" else c["trees"][0]) >= 2)
+                r = oracle(c)
+                if r:
+                    ctx.counterexample(c, *r)
+                continue
+            if k == "binop" and c["f"] == "truediv":
+                ctx.case(c, True)
                 r = oracle(c)
                 if r:
                     ctx.counterexample(c, *r)
